@@ -63,6 +63,12 @@ def gen(seed: int, tier: str) -> dict[str, Any]:
             op["iters"] = rng.choice([0, 1, 2, 3])
             op["lat"] = 0.0
         ops.append(op)
+    if n_b and rng.random() < 0.2:
+        # the interface is disconnected and connected again (same object) - possibly during a pause - and used further
+        tr_ = round(rng.uniform(0.0, tmax), 6)
+        ops.append({"t": tr_, "op": "reconnect"})
+        for j in range(rng.choice([1, 2])):
+            ops.append({"t": round(tr_ + 0.2 + rng.uniform(0.0, 0.5), 6), "op": "send", "id": 100 + j})
     ops.sort(key=lambda o: o["t"])
     return {"seed": seed, "tier": "S", "config": {"batch": 1 if rng.random() < 0.8 else 3, "lat": 0.001}, "ops": ops}
 
@@ -80,6 +86,7 @@ def run(plan: dict[str, Any]) -> dict[str, Any]:
     cons: list[tuple[int, float, int]] = []       # (n, t, payload id)
     sends: dict[int, dict[str, Any]] = {}
     busy_in: list[tuple[int, float, int]] = []    # delivered busy frames (n, t, wait)
+    info: dict[str, Any] = {}
 
     def on_cemi(raw: bytes):
         c = W.parse_cemi_ldata(bytes(raw))
@@ -106,9 +113,19 @@ def run(plan: dict[str, Any]) -> dict[str, Any]:
             rec["ret"] = R.record("op_return", "user", pid)
             rec["t_ret"] = loop.time()
 
+        async def reconnect():
+            await routing.disconnect()
+            await asyncio.sleep(0.05)
+            await routing.connect()
+            info["reconnect_at"] = loop.time()      # the flow control starts afresh from here
+
         def do(op):
             if op["op"] == "send":
                 tasks.append(loop.create_task(do_send(op["id"])))
+            elif op["op"] == "reconnect":
+                R.extra_faults["disconnect_and_connect_again"] += 1
+                info["reconnect_started"] = loop.time()
+                tasks.append(loop.create_task(reconnect()))
             else:
                 fr = W.routing_busy(op["wait"])
                 if "iters" in op:
@@ -150,11 +167,19 @@ def run(plan: dict[str, Any]) -> dict[str, Any]:
                 busy_in.append((n, t, int.from_bytes(sp[1][2:4], "big")))
     nontrivial = False
     # lower bound: no indication before the end of the pause set by the busy frames received so far
+    rc = info.get("reconnect_at")
     for (n, t, pid) in inds:
-        end = max([tb + w / 1000.0 for (nb, tb, w) in busy_in if nb < n], default=None)
+        if info.get("reconnect_started") is not None and (rc is None or t < rc) and t >= info["reconnect_started"]:
+            continue        # sent while the interface was being taken down / brought up again: unjudged
+        if rc is not None and t >= rc:
+            # disconnect() / connect() starts the flow control afresh: pauses announced before do not bind what is sent after
+            busy_now = [(nb, tb, w) for (nb, tb, w) in busy_in if tb >= rc]
+        else:
+            busy_now = busy_in
+        end = max([tb + w / 1000.0 for (nb, tb, w) in busy_now if nb < n], default=None)
         if end is not None and t < end - 1e-9:
-            setter = max(((tb + w / 1000.0, tb, w) for (nb, tb, w) in busy_in if nb < n))
-            same_instant = any(nb < n and abs(tb - t) < 1e-9 for (nb, tb, w) in busy_in)
+            setter = max(((tb + w / 1000.0, tb, w) for (nb, tb, w) in busy_now if nb < n))
+            same_instant = any(nb < n and abs(tb - t) < 1e-9 for (nb, tb, w) in busy_now)
             R.violate("C27.busy-pause", "sent-during-pause" + (":busy-in-same-instant" if same_instant else ""),
                       f"RoutingIndication {pid} sent at {t:.6f} although a busy frame received at {setter[1]:.6f} announced "
                       f"{setter[2]} ms (pause until {setter[0]:.6f})")
